@@ -2,10 +2,11 @@
    Coq datatypes (positive, Z, Q, nat).  Compiled from the ocaml/gen directory
    by tools/build_model.sh so that model.ml lands there. *)
 From Coq Require Import Extraction ExtrOcamlBasic.
-From QSX Require Import Base.QSum LP.ILP LP.Cert LP.User LP.OptTest.
+From QSX Require Import Base.QSum LP.ILP LP.Cert LP.User LP.OptTest LP.Driver.
 Extraction Language OCaml.
 Extraction "model.ml"
   radd rsub rmul rdiv Qred Qeq_bool Qle_bool Qltb Qplus Qmult Qminus Qopp Qinv
   inf_none inf_sentinel check_kkt check_farkas check_ray dz_l
   to_internal ilp_eqb wf_ulp
-  opt_test infeas_test wf_logicals.
+  opt_test infeas_test wf_logicals
+  exact_solver_gen exact_solver.
